@@ -18,7 +18,7 @@ from simkit import env; env.prepare()
 import importlib
 from simkit import tape as T, runner
 prop = %(prop)r
-mod = importlib.import_module('checks.' + prop.lower()); mod.setup()
+mod = importlib.import_module('checks.' + prop.lower()); mod.setup(); runner.warm_up(mod)
 out = {}
 for idx in %(order)r:
   tp = T.Tape(T.derive_seed(%(seed)d, prop, idx))
